@@ -1,10 +1,12 @@
 import TF.Model.FieldOps
+import TF.Model.Poly
 import TF.Gen.Consts
 /-!
 Model of the interpolation / bulk evaluation / zerofier / coset extrapolation routines of
 `twenty-first/src/math/polynomial.rs` and of `math/zerofier_tree.rs` (property C08).  Core Lean only.
 
 * Polynomials are coefficient lists, lowest degree first; stored leading zeros are representable, as in Rust.
+  The shared polynomial core (`normalize`, `add`, `sub`, `scale`, `evaluate`, …) is `TF/Model/Poly.lean`.
 * Generic in the field through `TF.FieldOps α`.
 * `Option`: `none` models a panic (or, for the dispatchers run with a degenerate threshold, unbounded recursion).
 * Routines that belong to other properties are *parameters* (`Ext α`): `multiply` / operator `*` /
@@ -15,7 +17,7 @@ Model of the interpolation / bulk evaluation / zerofier / coset extrapolation ro
   translated from the Rust source (`TF.Gen.*`).  Thread counts (`available_parallelism`) are parameters too.
 -/
 namespace TF.Model.PolyI
-open TF
+open TF TF.Model.Poly
 
 variable {α : Type}
 
@@ -39,45 +41,8 @@ structure Ext (α : Type) where
 section basic
 variable (F : FieldOps α)
 
-def one : List α := [F.one]
-
-/-- `coefficients()` / `normalize`: drop stored leading zeros -/
-def norm : List α → List α
-  | [] => []
-  | c :: cs =>
-    match norm cs with
-    | [] => if F.isZero c then [] else [c]
-    | r => c :: r
-
-def isZeroPoly (p : List α) : Bool := p.all F.isZero
-
 /-- `degree() + 1` (0 for the zero polynomial) -/
-def degSucc (p : List α) : Nat := (norm F p).length
-
-/-- `evaluate`: `for c in coefficients.rev() { acc = acc * x + c }` -/
-def evaluate (p : List α) (x : α) : α :=
-  p.foldr (fun c acc => F.add (F.mul acc x) c) F.zero
-
-/-- `Add`: `zip_longest` -/
-def add : List α → List α → List α
-  | [], ys => ys
-  | xs, [] => xs
-  | x :: xs, y :: ys => F.add x y :: add xs ys
-
-/-- `Sub`: `zip_longest`, `0 - r` on the right tail -/
-def sub : List α → List α → List α
-  | [], ys => ys.map (fun y => F.sub F.zero y)
-  | xs, [] => xs
-  | x :: xs, y :: ys => F.sub x y :: sub xs ys
-
-def scalarMul (s : α) (p : List α) : List α := p.map (fun c => F.mul c s)
-
-/-- `scale`: coefficient `i` times `alpha^i`, powers accumulated -/
-def scaleAux (alpha : α) : α → List α → List α
-  | _, [] => []
-  | pw, c :: cs => F.mul c pw :: scaleAux alpha (F.mul pw alpha) cs
-
-def scale (p : List α) (alpha : α) : List α := scaleAux F alpha F.one p
+def degSucc (p : List α) : Nat := (normalize F p).length
 
 /-- `Vec::resize(n, ZERO)` -/
 def resize (p : List α) (n : Nat) : List α := p.take n ++ List.replicate (n - p.length) F.zero
@@ -245,7 +210,7 @@ def newFromDomain (domain : List α) : Option (ZTree α) :=
 
 /-- `reduce`: panics on the zero modulus, otherwise the remainder -/
 def reduce (p m : List α) : Option (List α) :=
-  if isZeroPoly F m then none else some (E.rem p m)
+  if Poly.isZero F m then none else some (E.rem p m)
 
 /-- `iterative_batch_evaluate` -/
 def iterativeBatchEvaluate (p : List α) (domain : List α) : List α := domain.map (evaluate F p)
@@ -263,7 +228,7 @@ def dcEval (p : List α) : ZTree α → Option (List α)
 
 /-- `batch_evaluate` with ratio `R` (and tree parameters) -/
 def batchEvaluateWith (R RT T : Nat) (p : List α) (domain : List α) : Option (List α) :=
-  if isZeroPoly F p then some (List.replicate domain.length F.zero)
+  if Poly.isZero F p then some (List.replicate domain.length F.zero)
   else if degSucc F p ≥ R * domain.length + 1 then do   -- degree ≥ R * len
     -- reduce_then_batch_evaluate
     let t ← newFromDomainWith F E RT T domain
@@ -279,7 +244,7 @@ def batchEvaluate (p : List α) (domain : List α) : Option (List α) :=
 
 /-- `par_batch_evaluate` with `available_parallelism() = threads` -/
 def parBatchEvaluateWith (R RT T : Nat) (threads : Nat) (p : List α) (domain : List α) : Option (List α) :=
-  if domain.isEmpty || isZeroPoly F p then some (List.replicate domain.length F.zero) else
+  if domain.isEmpty || Poly.isZero F p then some (List.replicate domain.length F.zero) else
   let chunk := ceilDiv domain.length threads
   if chunk == 0 then none else do
     let parts ← (chunks chunk domain).mapM (batchEvaluateWith F E R RT T p)
@@ -300,7 +265,7 @@ variable (F : FieldOps α) (E : Ext α)
     coefficients in *descending* order (the next `supporting_coefficient` first), `acc` = quotient coefficients found
     so far (ascending). Returns (summand_array, summand_eval). -/
 def synthGo (x : α) : α → α → List α → List α → List α × α
-  | lc, ev, acc, [] => (acc, ev)                 -- not reached for a non-empty domain
+  | _, ev, acc, [] => (acc, ev)                 -- not reached for a non-empty domain
   | lc, ev, acc, [_] => (lc :: acc, F.add (F.mul ev x) lc)
   | lc, ev, acc, s :: s' :: rest =>
     synthGo x (F.add s (F.mul lc x)) (F.add (F.mul ev x) lc) (lc :: acc) (s' :: rest)
@@ -321,8 +286,7 @@ def lagrangeLoop (zdesc : List α) : List (α × α) → List α → Option (Lis
 /-- `lagrange_interpolate` (release build: the `debug_assert`s are compiled out) -/
 def lagrangeInterpolateWith (T : Nat) (domain values : List α) : Option (List α) :=
   let n := domain.length
-  if n == 0 then none                      -- `zerofier[domain.len() - 1]`
-  else if values.length > n then none      -- `domain[i]` out of bounds
+  if values.length > n then none      -- `domain[i]` out of bounds (for n = 0: `zerofier[domain.len() - 1]`)
   else do
     let z ← zerofierWith F E T domain
     if z.length < n + 1 then none else
@@ -528,16 +492,16 @@ def modSquares (m : List α) : Nat → List α → List (List α)
   | k+1, acc => acc :: modSquares m k (E.rem (E.mul acc acc) m)
 
 def sparseZerofiers (base : α) (squares : List (List α)) : List (List α) :=
-  (squares.zipIdx).map (fun (sq, i) => sub F (scalarMul F (F.pow base (2 ^ i)) sq) (one F))
+  (squares.zipIdx).map (fun (sq, i) => sub F (scalarMul F sq (F.pow base (2 ^ i))) (one F))
 
 /-- `fast_modular_coset_interpolate_preprocess` -/
 def fmciPreprocess (n : Nat) (offset : α) (modulus : List α) : Option (Pre α) := do
   let omega ← F.rootOfUnity n
   if n == 0 then none else                       -- `n.ilog2()`
   let k := log2 n
-  if k ≥ 1 && isZeroPoly F modulus then none else   -- `.reduce(modulus)`
+  if k ≥ 1 && Poly.isZero F modulus then none else   -- `.reduce(modulus)`
   if k ≥ 1 && F.isZero offset then none else        -- `offset.inverse()`, `(offset * omega).inverse()`
-  if isZeroPoly F modulus then none else            -- `shift_factor_ntt_with_tail_length`
+  if Poly.isZero F modulus then none else            -- `shift_factor_ntt_with_tail_length`
   let squares := modSquares E modulus k [F.zero, F.one]
   pure { evenZ := sparseZerofiers F (F.inv offset) squares
          oddZ := sparseZerofiers F (F.inv (F.mul offset omega)) squares
@@ -557,7 +521,7 @@ def odds : List α → List α
 def fmciWithFuel (t : Thr) : Nat → List α → α → List α → Pre α → Option (List α)
   | 0, _, _, _, _ => none
   | fuel+1, values, offset, modulus, pre =>
-    if isZeroPoly F modulus then none else
+    if Poly.isZero F modulus then none else
     let n := values.length
     match F.rootOfUnity n with
     | none => none
@@ -629,7 +593,7 @@ def batchCosetExtrapolateWith (t : Thr) (offset : α) (n : Nat) (codewords point
   else do
     let tree ← newFromDomainWith F E t.rt t.zf points
     let modulus := tree.zerofier F
-    if isZeroPoly F modulus then none else      -- `shift_factor_ntt_with_tail_length`
+    if Poly.isZero F modulus then none else      -- `shift_factor_ntt_with_tail_length`
     if n == 0 then none else                    -- `codewords.len() / n`
     let parts ← (codewordSlices n codewords).mapM (fun cw => do
       let c ← inttChecked E cw
@@ -645,12 +609,6 @@ end coset
 section std
 variable (F : FieldOps α)
 
-def mulNaive (a b : List α) : List α :=
-  let a := norm F a
-  let b := norm F b
-  if a.isEmpty || b.isEmpty then [] else
-  a.foldr (fun ai acc => add F (b.map (fun bj => F.mul ai bj)) (match acc with | [] => [] | _ => F.zero :: acc)) []
-
 def subScaled (q : α) : List α → List α → List α
   | x :: xs, y :: ys => F.sub x (F.mul q y) :: subScaled q xs ys
   | xs, [] => xs
@@ -663,10 +621,10 @@ def remLoop (lcInv : α) (mtail : List α) : Nat → List α → List α
   | k+1, top :: rest => remLoop lcInv mtail k (subScaled F (F.mul top lcInv) rest mtail)
 
 def remNaive (a m : List α) : List α :=
-  match (norm F m).reverse with
+  match (normalize F m).reverse with
   | [] => a          -- zero modulus: callers test before
   | lc :: mtail =>
-    let ar := (norm F a).reverse
+    let ar := (normalize F a).reverse
     if ar.length ≤ mtail.length then a else
     (remLoop F (F.inv lc) mtail (ar.length - mtail.length) ar).reverse
 
@@ -697,13 +655,13 @@ def inttStd (xs : List α) : List α :=
 
 /-- product through the transform when both factors are large -/
 def mulStd (a b : List α) : List α :=
-  let a' := norm F a
-  let b' := norm F b
-  if a'.length < 64 || b'.length < 64 then mulNaive F a' b' else
+  let a' := normalize F a
+  let b' := normalize F b
+  if a'.length < 64 || b'.length < 64 then naiveMultiply F a' b' else
   let deg1 := a'.length + b'.length - 1
   let order := nextPow2 deg1
   match F.rootOfUnity order with
-  | none => mulNaive F a' b'
+  | none => naiveMultiply F a' b'
   | some w =>
     let fa := fftFuel F (order + 1) w (resize F a' order)
     let fb := fftFuel F (order + 1) w (resize F b' order)
